@@ -665,3 +665,18 @@ impl Send {
         self.is_extended_connect_protocol_enabled
     }
 }
+
+#[cfg(feature = "verif-hooks")]
+impl Send {
+    pub(super) fn verif_snap(&self) -> crate::verif::SendSnap {
+        let mut snap = crate::verif::SendSnap {
+            init_window_sz: self.init_window_sz,
+            next_stream_id: self.next_stream_id.ok().map(Into::into),
+            max_stream_id: self.max_stream_id.into(),
+            is_push_enabled: self.is_push_enabled,
+            ..Default::default()
+        };
+        self.prioritize.verif_snap(&mut snap);
+        snap
+    }
+}
